@@ -67,8 +67,33 @@ Definition spec_ok (c : c05_case) : bool :=
            | _, _ => true end
       else true).
 
+(* the credential check itself: BasicAuth.Validate on a list of accounts and an authorization header *)
+Inductive c05_any :=
+| CServe (c : c05_case)
+| CBasic (accounts : list (string * string)) (hdr : option (string * string)) (got : option string).
+
+Definition ostr_eqb (a b : option string) : bool :=
+  match a, b with Some x, Some y => String.eqb x y | None, None => true | _, _ => false end.
+Definition basic_agrees (accounts : list (string * string)) (hdr : option (string * string)) (got : option string) : bool :=
+  ostr_eqb (basic_validate accounts hdr) got.
+(* on the observation alone: a user validates only if it is a configured account and its password was presented *)
+Definition basic_spec_ok (accounts : list (string * string)) (hdr : option (string * string)) (got : option string) : bool :=
+  match got with
+  | None => true
+  | Some u => match hdr with
+              | Some (hu, hp) => String.eqb hu u && existsb (fun c => String.eqb (fst c) u && String.eqb (snd c) hp) accounts
+              | None => false
+              end
+  end.
+
 Fixpoint idx_where {X} (p : X -> bool) (i : nat) (l : list X) : list nat :=
   match l with [] => [] | x :: r => if p x then i :: idx_where p (S i) r else idx_where p (S i) r end.
-Definition mismatches (cs : list c05_case) := idx_where (fun c => negb (agrees c)) 0 cs.
-Definition spec_violations (cs : list c05_case) := idx_where (fun c => negb (spec_ok c)) 0 cs.
-Definition explain (c : c05_case) := (model_verdict c, agrees c, spec_ok c).
+Definition mismatches (cs : list c05_any) :=
+  idx_where (fun c => match c with CServe c => negb (agrees c) | CBasic a h g => negb (basic_agrees a h g) end) 0 cs.
+Definition spec_violations (cs : list c05_any) :=
+  idx_where (fun c => match c with CServe c => negb (spec_ok c) | CBasic a h g => negb (basic_spec_ok a h g) end) 0 cs.
+Definition explain (c : c05_any) :=
+  match c with
+  | CServe c => (model_verdict c, agrees c, spec_ok c)
+  | CBasic a h g => (match basic_validate a h with Some _ => RunsHandler | None => Unauthenticated end, basic_agrees a h g, basic_spec_ok a h g)
+  end.
